@@ -212,6 +212,29 @@ end
 def Layout.endianOr (d : Endian) : Layout → Endian
   | .mk e _ _ _ => e.getD d
 
+/-! ### normal form (what the regenerated descriptor is compared on)
+
+`Layout.normalize` removes three harmless re-spellings of a declaration: field names; a struct-level
+endianness attribute versus the same attribute on each field; `pad_after = a` on one field followed
+by `pad_before = b` on the next (no magic in between) versus one pad of `a + b`.  It works on the
+struct's own fields (a nested struct is normalised by its own obligation).
+`Proofs/BinrwLemmas.lean`: `Layout.read e (normalize l) = Layout.read e l`. -/
+
+def Field.pushEndian (le : Option Endian) : Field → Field
+  | .mk _ fe m pb k pst pa => .mk "" (match fe with | some x => some x | none => le) m pb k pst pa
+
+def mergePads : List Field → List Field
+  | [] => []
+  | .mk n fe m pb k pst pa :: fs =>
+    match mergePads fs with
+    | .mk n2 fe2 .none pb2 k2 pst2 pa2 :: gs =>
+      .mk n fe m pb k pst 0 :: .mk n2 fe2 .none (pa + pb2) k2 pst2 pa2 :: gs
+    | gs => .mk n fe m pb k pst pa :: gs
+
+def Layout.normalize : Layout → Layout
+  | .mk le m fs c =>
+    .mk (match m with | .int _ _ => le | _ => none) m (mergePads (fs.map (Field.pushEndian le))) c
+
 /-- the phrasing of every tie theorem: `model reader l = via proj (Layout.read e generated l)` —
 the hand-written reader is the generated layout followed by a pure projection of the values -/
 def via {α : Type} (proj : List Value → Option α) (x : Option (List Value × Bytes)) : Option (α × Bytes) :=
